@@ -32,6 +32,8 @@ type Solver struct {
 	Timeout time.Duration
 	Log     io.Writer // optional: every script is written here
 	dead    bool
+	sess    *session
+	IncTimeout time.Duration // per-query cap in incremental mode (fallback to one-shot on unknown)
 }
 
 // Stats are global counters (atomic).
@@ -173,6 +175,9 @@ func (s *Solver) Check(script string, getValues []string) (Result, []string, err
 		if err := s.restart(); err != nil {
 			return Unknown, nil, err
 		}
+	}
+	if s.sess != nil {
+		s.sess.started = false // the (reset) below discards the incremental session
 	}
 	full := s.preamble() + script + "(check-sat)\n(echo \"" + endMark + "\")\n"
 	if s.Log != nil {
@@ -380,4 +385,159 @@ func ParseBV(v string) (uint64, bool) {
 		}
 	}
 	return 0, false
+}
+
+// ---------------- incremental sessions ----------------
+
+// Session state: declarations/assertions are sent once per path; each query is
+// a push/assert/check-sat/pop on top of them.
+type session struct {
+	all     strings.Builder // everything added since Begin (for resend after restart)
+	pending strings.Builder // not yet sent
+	digest  [32]byte
+	started bool // preamble sent to the current process
+}
+
+// Begin starts a new session (lazily resets the solver on first real query).
+func (s *Solver) Begin() {
+	s.sess = &session{}
+}
+
+// Add appends declarations/assertions to the session.
+func (s *Solver) Add(text string) {
+	if text == "" {
+		return
+	}
+	s.sess.all.WriteString(text)
+	s.sess.pending.WriteString(text)
+	h := sha256.New()
+	h.Write(s.sess.digest[:])
+	h.Write([]byte(text))
+	copy(s.sess.digest[:], h.Sum(nil))
+}
+
+// CheckInc checks the session assertions plus extra (assert commands).
+func (s *Solver) CheckInc(extra string, getValues []string) (Result, []string, error) {
+	var key [32]byte
+	if len(getValues) == 0 {
+		h := sha256.New()
+		h.Write([]byte(s.Kind + "\x00inc\x00"))
+		h.Write(s.sess.digest[:])
+		h.Write([]byte(extra))
+		copy(key[:], h.Sum(nil))
+		cacheMu.Lock()
+		r, ok := cache[key]
+		cacheMu.Unlock()
+		if ok {
+			atomic.AddInt64(&GStats.CacheHits, 1)
+			return r, nil, nil
+		}
+	}
+	if s.dead {
+		if err := s.restart(); err != nil {
+			return Unknown, nil, err
+		}
+		s.sess.started = false
+	}
+	var out strings.Builder
+	if !s.sess.started {
+		out.WriteString(s.preamble())
+		out.WriteString(s.sess.all.String())
+		s.sess.started = true
+	} else {
+		out.WriteString(s.sess.pending.String())
+	}
+	s.sess.pending.Reset()
+	out.WriteString("(push 1)\n")
+	if s.Kind != "cvc5" && s.IncTimeout > 0 {
+		fmt.Fprintf(&out, "(set-option :timeout %d)\n", s.IncTimeout.Milliseconds())
+	}
+	out.WriteString(extra)
+	out.WriteString("(check-sat)\n(echo \"" + endMark + "\")\n")
+	if s.Log != nil {
+		fmt.Fprintf(s.Log, ";;;; QUERY(inc)\n%s", out.String())
+	}
+	t0 := time.Now()
+	if _, err := io.WriteString(s.in, out.String()); err != nil {
+		s.dead = true
+		return Unknown, nil, err
+	}
+	lines, err := s.readUntilMark(s.Timeout + 20*time.Second)
+	dt := time.Since(t0)
+	atomic.AddInt64(&GStats.NanosZ3, int64(dt))
+	atomic.AddInt64(&GStats.Queries, 1)
+	if err != nil {
+		atomic.AddInt64(&GStats.Unknown, 1)
+		return Unknown, nil, err
+	}
+	res := Unknown
+	for _, l := range lines {
+		if strings.Contains(l, "(error") {
+			atomic.AddInt64(&GStats.Unknown, 1)
+			if s.Log != nil {
+				fmt.Fprintf(s.Log, ";;;; ERROR %s\n", l)
+			}
+			s.dead = true // resynchronise on the next query
+			s.cmd.Process.Kill()
+			return Unknown, nil, fmt.Errorf("solver error: %s", l)
+		}
+	}
+	for _, l := range lines {
+		switch strings.TrimSpace(l) {
+		case "sat":
+			res = Sat
+		case "unsat":
+			res = Unsat
+		}
+	}
+	if s.Log != nil {
+		fmt.Fprintf(s.Log, ";;;; RESULT %v in %v\n", res, dt)
+	}
+	switch res {
+	case Sat:
+		atomic.AddInt64(&GStats.Sat, 1)
+	case Unsat:
+		atomic.AddInt64(&GStats.Unsat, 1)
+	default:
+		atomic.AddInt64(&GStats.Unknown, 1)
+	}
+	var vals []string
+	if res == Sat && len(getValues) > 0 {
+		const chunk = 200
+		for i := 0; i < len(getValues); i += chunk {
+			j := i + chunk
+			if j > len(getValues) {
+				j = len(getValues)
+			}
+			q := "(get-value (" + strings.Join(getValues[i:j], " ") + "))\n(echo \"" + endMark + "\")\n"
+			if _, err := io.WriteString(s.in, q); err != nil {
+				s.dead = true
+				return Unknown, nil, err
+			}
+			ls, err := s.readUntilMark(s.Timeout + 20*time.Second)
+			if err != nil {
+				return Unknown, nil, err
+			}
+			text := strings.Join(ls, " ")
+			if strings.Contains(text, "(error") {
+				s.dead = true
+				s.cmd.Process.Kill()
+				return Unknown, nil, fmt.Errorf("solver error in get-value: %s", text)
+			}
+			vs, err := parseValues(text, j-i)
+			if err != nil {
+				return Unknown, nil, fmt.Errorf("%v in %q", err, text)
+			}
+			vals = append(vals, vs...)
+		}
+	}
+	if _, err := io.WriteString(s.in, "(pop 1)\n"); err != nil {
+		s.dead = true
+	}
+	if len(getValues) == 0 && res != Unknown {
+		cacheMu.Lock()
+		cache[key] = res
+		cacheMu.Unlock()
+	}
+	return res, vals, nil
 }
